@@ -7,6 +7,7 @@ import MxlVerif.Lemmas.C08Roundtrip
 import MxlVerif.Lemmas.C08Compartment
 import MxlVerif.Lemmas.C08RoundtripFrom
 import MxlVerif.Lemmas.C08Full
+import MxlVerif.Lemmas.C08Bridge
 import MxlVerif.Lemmas.C08Total
 import MxlVerif.Model.C17Doc
 namespace Mxl.C08
@@ -620,6 +621,20 @@ theorem C08_written_species_import_reading (d : Mxl.C17.Doc) (s : Mxl.C17.Specie
   rw [h1] at hh; rw [h2] at ha
   refine ⟨fun a => by simp [Mxl.C17.symOfAmount, Mxl.C17.amountOfSym, hh], ?_⟩
   cases hi : s.init <;> simp [Mxl.C17.symInit, Mxl.C17.symOfAmount, hh, ha, hi]
+
+/-- **Bridge to the import side, document level** (cross-audit): for a model with variables, C17's document semantics — the
+    reference the imported model is compared with — reads the document `write` produces (`toC17`: compartments, species with
+    their written attributes, no function definitions) as the written `SDoc` with the compartments added as constant parameters:
+    same flattening (`toSDoc`), and the same d amount / dt at the same amounts (`docRhs17`), whatever the compartments and sizes.
+    What is left between `C08_write_roundtrip` (about `dc.doc`) and C17's reading is only that parameters no math mentions do not
+    change a value (`evalMath_mono` direction; compartment ids are apart from the component names, `C08_compartment_ids_apart`). -/
+theorem C08_written_doc_import_reading (I : Interp) (m : PyModel) (o : Option (List (String × Rat))) (dc : SDocC)
+    (hv : m.vars ≠ []) (h : writeModel m o = .ok dc) :
+    Mxl.C17.toSDoc (toC17 dc) =
+      { dc.doc with params := dc.doc.params ++ dc.compartments.map (fun kv => (kv.1, some kv.2)) } ∧
+    ∀ amounts x, Mxl.C17.docRhs17 I (toC17 dc) amounts x =
+      docRhs I { dc.doc with params := dc.doc.params ++ dc.compartments.map (fun kv => (kv.1, some kv.2)) } amounts x :=
+  ⟨toSDoc_written m o dc hv h, fun amounts x => docRhs17_written I m o dc hv h amounts x⟩
 
 /-- compartment ids and component names stay apart (F-C08-16): no compartment of a written file is called like a
     parameter, variable, derived quantity or reaction of the model; the default call never fails on that account. -/
